@@ -242,8 +242,13 @@ def step (w : World) : Op → World × Out
   | .compare r r2 =>
     (match w.get r, w.get r2 with
      | some (.vec a), some (.vec b) =>
-       let c := cmpVals a.vals b.vals
-       (w, .cmp (a.vals == b.vals) (some c) c (a.vals == b.vals))
+       let (res, _, w') := runOn w a (do
+         let ea ← contents X
+         let (eb, _) ← VM.onVec b (contents X)
+         compareSlices X ea eb)
+       (match res with
+        | .ok (eq, pc, c, heq) => (w', .cmp eq (some pc) c heq)
+        | .error p => (w', .stopped p))
      | _, _ => (w, .badOp))
   | .spare r => w.onVecReg r (do let n ← spare X; pure (.nums [n]))
   | .split_spare r => w.onVecReg r (do let (a, b) ← split_spare X; pure (.nums [a, b]))
